@@ -18,7 +18,8 @@ def sig(m):
     for it in m.get("line", []):
         t = it.get("t")
         glued_v = it.get("v", "") if t == "glued" or (t == "cluster" and it.get("hasv")) else None
-        if glued_v is not None and "%FF" in glued_v:
+        # F11 is about multi-letter items *without* `=`: with one, the item is split at the `=` and the bytes survive
+        if glued_v is not None and "%FF" in glued_v and "=" not in glued_v:
             rules.add("short_option_glued_value_not_utf8")
         if t == "cluster" and it.get("hasv") and "=" in it.get("v", ""):
             rules.add("cluster_attached_value_contains_equals")
